@@ -283,7 +283,7 @@ def check_seq(case, stats):
 
 
 CHECKS = {'check_cell': check_cell, 'check_seq': check_seq}
-_B = {'quick': 40, 'thorough': 300}
+_B = {'quick': 80, 'thorough': 400}
 
 
 def shards(tier):
